@@ -142,6 +142,7 @@ type cRecorder struct {
 	events []cEvent
 	shards map[*TemplatesShard]int
 	keys   map[uint32]string
+	gate   func(ev string, shard int) // end phase: holds a goroutine at a hook (it is inside the shard's critical section)
 }
 
 func (r *cRecorder) keyName(k uint32) string {
@@ -177,6 +178,9 @@ func (r *cRecorder) hook(ev string, shard *TemplatesShard, key uint32) {
 		e.Key = r.keyName(key)
 	}
 	r.add(e)
+	if g := r.gate; g != nil {
+		g(ev, e.Shard)
+	}
 }
 
 func cWrite(path string, events []cEvent) error {
@@ -329,6 +333,9 @@ func TestVerifCacheStress(t *testing.T) {
 			default:
 			}
 			file := filepath.Join(dir, fmt.Sprintf("dump%d.json", n))
+			if record {
+				rec.add(cEvent{G: cGoid(), Ev: "DumpCall", Dump: n})
+			}
 			if err := cache.Dump(file); err != nil {
 				t.Errorf("Dump: %v", err)
 				continue
@@ -352,6 +359,77 @@ func TestVerifCacheStress(t *testing.T) {
 		cWrite(out, evs)
 		return
 	}
+	if record {
+		// end phase, the workers are done: dumps into ONE file (what shutdown after shutdown does), one of them overtaken by
+		// an announcement for a shard it has already written; then a dump with nothing going on - the file it leaves must
+		// load back as what the cache holds
+		file := filepath.Join(dir, "cache.json")
+		keep := func(n int) { // the file as this dump left it
+			b, _ := ioutil.ReadFile(file)
+			ioutil.WriteFile(filepath.Join(dir, fmt.Sprintf("dump%d.json", n)), b, 0644)
+		}
+		n := dumps + 1
+		rec.add(cEvent{G: cGoid(), Ev: "DumpCall", Dump: n})
+		if err := cache.Dump(file); err != nil {
+			t.Errorf("Dump: %v", err)
+		}
+		keep(n)
+		rec.add(cEvent{G: cGoid(), Ev: "DumpFile", Dump: n})
+		lastShard := len(cache)
+		var e net.IP
+		id := 0
+		for _, x := range exps {
+			for _, y := range ids {
+				if sh, _ := cache.getShard(uint16(y), x); rec.shards[sh] != lastShard && id == 0 && y != cStableID {
+					e, id = x, y
+				}
+			}
+		}
+		armed, release := make(chan struct{}), make(chan struct{})
+		var once sync.Once
+		rec.mu.Lock()
+		rec.gate = func(ev string, sh int) {
+			if ev == "DumpLocked" && sh == lastShard {
+				once.Do(func() { close(armed); <-release })
+			}
+		}
+		rec.mu.Unlock()
+		announce := func() {
+			ver := int(atomic.AddInt64(&verCounter, 1))%2400 + 51
+			rec.add(cEvent{G: cGoid(), Ev: "AnnCall", Ver: ver})
+			if _, err := NewDecoder(e, cTplMsg(id, ver)).Decode(cache); err != nil {
+				t.Errorf("template datagram rejected: %v", err)
+			}
+			rec.add(cEvent{G: cGoid(), Ev: "AnnReturn", Ver: ver})
+		}
+		announce() // something has changed since the last dump
+		n++
+		dumped := make(chan error, 1)
+		rec.add(cEvent{G: cGoid(), Ev: "DumpCall", Dump: n})
+		go func() { dumped <- cache.Dump(file) }()
+		select {
+		case <-armed:
+			announce() // ... and changes again while the dump is at its last shard
+			close(release)
+		case err := <-dumped: // the dump never reached the last shard (it wrote nothing?): the next steps tell
+			dumped <- err
+		}
+		if err := <-dumped; err != nil {
+			t.Errorf("Dump: %v", err)
+		}
+		rec.mu.Lock()
+		rec.gate = nil
+		rec.mu.Unlock()
+		keep(n)
+		rec.add(cEvent{G: cGoid(), Ev: "DumpFile", Dump: n})
+		n++
+		rec.add(cEvent{G: cGoid(), Ev: "DumpCall", Dump: n})
+		if err := cache.Dump(file); err != nil {
+			t.Errorf("Dump: %v", err)
+		}
+		keep(n)
+		rec.add(cEvent{G: cGoid(), Ev: "DumpFinal", Dump: n})
+	}
 	verifHook = nil
 	if !record {
 		cWrite(out, nil)
@@ -360,7 +438,7 @@ func TestVerifCacheStress(t *testing.T) {
 	// load every dump back with the real loader and attach its content to its DumpFile event
 	for i := range rec.events {
 		e := &rec.events[i]
-		if e.Ev != "DumpFile" {
+		if e.Ev != "DumpFile" && e.Ev != "DumpFinal" {
 			continue
 		}
 		loaded := GetCache(filepath.Join(dir, fmt.Sprintf("dump%d.json", e.Dump)))
